@@ -10,6 +10,8 @@
 (define-fun enc.ext ((D (Array Int Int)) (d Int) (p Int) (v Int)) Bool
   (and (forall ((j Int)) (! (=> (and (<= p j) (< j (+ p (div v 255)))) (= (select D (idx d j)) 255)) :pattern ((select D (idx d j)))))
        (= (select D (idx d (+ p (div v 255)))) (mod v 255))))
+; the byte at position p (lets a contract read one byte of the memory of old(s) at a current position)
+(define-fun enc.byte ((D (Array Int Int)) (d Int) (p Int)) Int (select D (idx d p)))
 ; its size in bytes; 0 when the length fits the nibble (len < 15)
 (define-fun enc.extLen ((len Int)) Int (ite (>= len 15) (+ (div (- len 15) 255) 1) 0))
 (define-fun enc.nib ((len Int)) Int (ite (< len 15) len 15))
@@ -42,6 +44,11 @@
   (and (<= off pos)
        (forall ((q Int)) (! (=> (and (<= pos q) (< q (+ pos M4 4))) (= (select S (idx s q)) (select S (idx s (- q off))))) :pattern ((select S (idx s q)))))))
 
+; enc.at(m): a marker that holds for every m; stating it in a contract puts the term in front of
+; the solver and so selects the instance m of a lemma whose trigger mentions it
+(declare-fun enc.at (Int) Bool)
+(assert (forall ((m Int)) (! (enc.at m) :pattern ((enc.at m)))))
+
 ; ---- lemmas (proved by the engine, pseudo function lemmas.enc) ----
 ; a sequence depends only on its own bytes p .. p2-1 of the output
 (lemma enc.seq_frame
@@ -51,3 +58,38 @@
                       (forall ((j Int)) (! (=> (and (<= p j) (< j p2)) (= (select D2 (idx d j)) (select D1 (idx d j)))) :pattern ((select D2 (idx d j))))))
                  (enc.seq D2 d p S s a L M4 off lp p2))
   :pattern ((enc.seq D1 d p S s a L M4 off lp p2) (enc.seq D2 d p S s a L M4 off lp p2)))
+; a match repeats with every multiple of its offset that stays inside the bytes already covered
+; (the decoders copy overlapping matches in chunks that are multiples of the offset)
+(define-fun enc.periodAt ((S (Array Int Int)) (s Int) (pos Int) (M4 Int) (off Int) (m Int)) Bool
+  (forall ((x Int)) (! (=> (and (<= pos x) (< x (+ pos M4 4)) (<= (- pos off) (- x (* m off))))
+                           (= (select S (idx s x)) (select S (idx s (- x (* m off))))))
+                       :pattern ((select S (idx s x))))))
+(lemma enc.period
+  :props (C04 C01)
+  :vars ((S (Array Int Int)) (s Int) (pos Int) (M4 Int) (off Int) (m Int))
+  :induction m
+  :statement (=> (and (enc.matchOK S s pos M4 off) (> off 0)) (enc.periodAt S s pos M4 off m))
+  :pattern ((enc.matchOK S s pos M4 off) (enc.at m)))
+; the predicates depend on the source only through the bytes they mention: the same bytes held
+; elsewhere (another memory, a ghost sequence) satisfy them as well
+(lemma enc.seq_source
+  :props (C01)
+  :vars ((D (Array Int Int)) (d Int) (p Int) (S1 (Array Int Int)) (s1 Int) (S2 (Array Int Int)) (s2 Int) (a Int) (L Int) (M4 Int) (off Int) (lp Int) (p2 Int))
+  :statement (=> (and (enc.seq D d p S1 s1 a L M4 off lp p2)
+                      (forall ((j Int)) (! (=> (and (<= a j) (< j (+ a L))) (= (select S2 (idx s2 j)) (select S1 (idx s1 j)))) :pattern ((select S2 (idx s2 j))))))
+                 (enc.seq D d p S2 s2 a L M4 off lp p2))
+  :pattern ((enc.seq D d p S1 s1 a L M4 off lp p2) (enc.seq D d p S2 s2 a L M4 off lp p2)))
+(lemma enc.last_source
+  :props (C01)
+  :vars ((D (Array Int Int)) (d Int) (p Int) (S1 (Array Int Int)) (s1 Int) (S2 (Array Int Int)) (s2 Int) (a Int) (L Int) (lp Int) (p2 Int))
+  :statement (=> (and (enc.last D d p S1 s1 a L lp p2)
+                      (forall ((j Int)) (! (=> (and (<= a j) (< j (+ a L))) (= (select S2 (idx s2 j)) (select S1 (idx s1 j)))) :pattern ((select S2 (idx s2 j))))))
+                 (enc.last D d p S2 s2 a L lp p2))
+  :pattern ((enc.last D d p S1 s1 a L lp p2) (enc.last D d p S2 s2 a L lp p2)))
+(lemma enc.match_source
+  :props (C01)
+  :vars ((S1 (Array Int Int)) (s1 Int) (S2 (Array Int Int)) (s2 Int) (pos Int) (M4 Int) (off Int))
+  :statement (=> (and (enc.matchOK S1 s1 pos M4 off) (> off 0)
+                      (forall ((j Int)) (! (=> (and (<= (- pos off) j) (< j (+ pos M4 4))) (= (select S2 (idx s2 j)) (select S1 (idx s1 j)))) :pattern ((select S2 (idx s2 j))))))
+                 (enc.matchOK S2 s2 pos M4 off))
+  :pattern ((enc.matchOK S1 s1 pos M4 off) (enc.matchOK S2 s2 pos M4 off)))
